@@ -473,7 +473,7 @@ func (h *httpServerHandler) handlePostResponse(ctx context.Context, w http.Respo
 	h.logger.Debugf("Received JSON-RPC response for session %s, ID: %v", sessionID, response.ID)
 
 	// Prepare response data
-	requestIDStr := fmt.Sprintf("%v", response.ID)
+	requestIDStr := requestIDKey(response.ID)
 	var responseMessage *json.RawMessage
 
 	// Handle error response.
@@ -776,7 +776,7 @@ func (h *httpServerHandler) SendRequest(ctx context.Context, sessionID string, r
 	}
 
 	// Register request and get response channel.
-	requestIDStr := pendingRequestKey(sessionID, fmt.Sprintf("%v", request.ID))
+	requestIDStr := pendingRequestKey(sessionID, requestIDKey(request.ID))
 	responseChan := h.responseManager.RegisterRequest(requestIDStr)
 	defer h.responseManager.UnregisterRequest(requestIDStr)
 
